@@ -512,8 +512,40 @@ func c07Histories(c *core.Ctx) {
 			steps = 150 + r.Intn(250) // a registry that fills up: most of the 2 x 128 proprietary CIDs get (re-)registered
 		}
 		var trace []string
+		// bursts: exactly 256 (or 512, 65536) successful re-registrations that leave the number of entries
+		// unchanged between two decodes - whatever the library derives from the registry (a size table with
+		// a small version counter) must notice every one of them
+		burst := h%23 == 11
+		if burst {
+			steps = 12
+		}
 		for s := 0; s < steps; s++ {
-			if r.Chance(1, 2) || (manyKeys && r.Chance(2, 3)) {
+			if burst && s%3 == 0 {
+				n := 256
+				switch s {
+				case 6:
+					n = 512
+				case 9:
+					n = 65536
+				}
+				size := 1 + (s/3)%4
+				for k := 0; k < n; k++ {
+					up, cid := k%2 == 0, byte(0x80+(k/2)%128)
+					if n == 65536 && k >= 256 {
+						cid = byte(0x80 + (k/2)%6) // keep it to the hot keys: same count, new sizes over and over
+						size = 1 + (k/12)%4
+					}
+					if err := lorawan.RegisterProprietaryMACCommand(up, lorawan.CID(cid), size); err != nil {
+						c.Violate("C07|history|register-refused", "%v", err)
+					}
+					model[up][cid] = size
+				}
+				c.Eval(int64(n))
+				trace = append(trace, fmt.Sprintf("burst of %d registrations", n))
+				c.Shape("history-op", "burst", n)
+				continue
+			}
+			if !burst && (r.Chance(1, 2) || (manyKeys && r.Chance(2, 3))) {
 				up := r.Bool()
 				cid := byte(r.Intn(256))
 				if r.Chance(3, 4) && !manyKeys {
